@@ -3,6 +3,7 @@ package main
 import (
 	"context"
 	"fmt"
+	"hash/fnv"
 	"io"
 	"strings"
 
@@ -135,6 +136,63 @@ func (s *engineSuite) do(t []string) string {
 			}
 		}
 		return "itdel " + hx(it.Key()) + " " + commitLine(s.kv.DelCurrent(ctx, it))
+	case "load":
+		// load <n> <keyprefix> <val>: n puts of keyprefix + 4-digit counter, one batch each 100
+		n := atoi(t[1])
+		for i := 0; i < n; i += 100 {
+			b := s.kv.BeginBatchWrite()
+			for j := i; j < i+100 && j < n; j++ {
+				b.Put(append(append([]byte{}, unhx(t[2])...), []byte(fmt.Sprintf("%04d", j))...), unhx(t[3]), 0)
+			}
+			if err := b.Commit(ctx); err != nil {
+				return "load err"
+			}
+		}
+		return "load ok"
+	case "iterw":
+		// iterw <start> <end> <k> <batch ops...>: one iterator; after k+1 elements a batch commits; the rest is
+		// drained: an iterator reads from ONE consistent snapshot
+		it, err := s.kv.Iter(ctx, unhx(t[1]), unhx(t[2]), 0, 0)
+		if err != nil {
+			return "iterw err"
+		}
+		defer it.Close()
+		k := atoi(t[3])
+		var parts []string
+		eof := false
+		for i := 0; i <= k; i++ {
+			if err := it.Next(ctx); err != nil {
+				eof = true
+				break
+			}
+			parts = append(parts, hx(it.Key())+"="+hx(it.Val()))
+		}
+		b := s.kv.BeginBatchWrite()
+		for _, op := range t[4:] {
+			f := strings.Split(op, ":")
+			switch f[0] {
+			case "put":
+				b.Put(unhx(f[1]), unhx(f[2]), 0)
+			case "del":
+				b.Del(unhx(f[1]))
+			}
+		}
+		if err := b.Commit(ctx); err != nil {
+			return "iterw batch-err"
+		}
+		for !eof {
+			if err := it.Next(ctx); err != nil {
+				break
+			}
+			parts = append(parts, hx(it.Key())+"="+hx(it.Val()))
+		}
+		// canonical and short: number of elements and a digest of the sequence
+		h := fnv.New64a()
+		for _, p := range parts {
+			h.Write([]byte(p))
+			h.Write([]byte{0})
+		}
+		return fmt.Sprintf("iterw n=%d digest=%016x", len(parts), h.Sum64())
 	case "dump":
 		return "dump " + dumpAll(s.kv)
 	case "parts":
